@@ -874,6 +874,36 @@ func (env *Env) evalCall(e CallE) *SV {
 		need(1)
 		x := arg(0)
 		return &SV{Sort: x.sort(), Signed: false, C: x.C}
+	case "is", "as":
+		// is(x, Name): the dynamic type of interface value x is the implementation named Name (a type
+		// of the package that closes the interface; generic ones are instantiated with x's type arguments);
+		// as(x, Name): x's payload as a value of that type (a pointer when the pointer type implements x's interface)
+		need(2)
+		x := arg(0)
+		id, ok := e.Args[1].(Ident)
+		if !ok || x.T == nil {
+			env.fail("%s(x, TypeName)", e.Fn)
+		}
+		var ct types.Type
+		for _, c := range vc.eng.closedWorld(x.T) {
+			b := c
+			if p, isP := b.(*types.Pointer); isP {
+				b = p.Elem()
+			}
+			if n, isN := b.(*types.Named); isN && n.Obj().Name() == id.Name {
+				ct = c
+			}
+		}
+		if ct == nil {
+			env.fail("%s: no implementation named %s of %s", e.Fn, id.Name, x.T)
+		}
+		if e.Fn == "is" {
+			return ghostBool(eq(x.C[0], vc.eng.typeID(ct)))
+		}
+		if _, isP := ct.(*types.Pointer); !isP {
+			env.fail("as(x, %s): only pointer implementations are supported", id.Name)
+		}
+		return &SV{T: ct, C: []string{x.C[1], x.C[2]}}
 	case "dyntype":
 		need(1)
 		return &SV{Sort: STid, C: []string{arg(0).C[0]}}
